@@ -42,6 +42,8 @@ class ExprDoc:
                 g.chain_bias, g.chain_extra = 0.35, 1
             for t in types:
                 kind = rng.choice(kinds) if kinds else None
+                if cascade and rng.random() < 0.15:
+                    kind = "repoint-local"
                 g.has_void_path = False
                 prog = g.program(t, kind)
                 src = ge.print_program(prog, rng)
